@@ -446,4 +446,6 @@ def run(run: Run):
     run.floor('C11.R3', 14)
     run.floor('C11.R4', 8)
     run.floor('C11.R5', 1)
+    from .common import shared_mechanisms as _shared
+    _shared(run, 'C11', 12, ['lexer', 'literals'])
     return INFO
